@@ -25,7 +25,11 @@ from the raw lines, is `daysOf t (preprocess l)` seen through `ofDay` (`Lemmas/S
 insertion commutes, fills merge as they absorb, grouping is insertion from the last line to the
 first), so for every validator-clean ledger with valid dates, no cost events and at most one SELL
 line per security and day after merging, every security's legs and closing pool are those of
-`Spec.identify` on the raw ledger. Also proved, the priority structure the statute prescribes:
+`Spec.identify` on the raw ledger; `C01_ledger_events` — the same **with capital returns and
+accumulations allowed**: the matcher identifies exactly as `Spec` does on the day table built from the raw
+lines with each purchase costed at consideration + fees + the offset the cost pre-pass left on it
+(`C01_matcher_is_statute_with_events`; what the offsets are is C03's and C11's subject). Also proved, the
+priority structure the statute prescribes:
 
 * `window_pinned`, `C01_window` — a 30-day leg's acquisition lies at most `bnbWindowDays = 30` days
   after the disposal, and strictly after it when the following days are later days; a day at exactly
@@ -306,12 +310,28 @@ theorem C01_legs_in_window (l : List Tx) (rs : List TickerResult) (h : run bnbWi
     day, an accepted run's legs (rule, quantity, allowable cost, acquisition date, in order) and
     closing pool (quantity, cost) are exactly those of `Spec`'s passes 2 and 3 on the same days. -/
 theorem C01_matcher_is_statute (t : String) (ds : List Day) (hs : ds.Pairwise (fun a b => a.ord < b.ord))
-    (hok : daysOk ds) (hne : noEvents ds) (hone : ∀ d ∈ ds, d.sells.length ≤ 1)
+    (hok : daysOk ds) (hne : noEvents ds) (hone : ∀ d ∈ ds, d.sells.length ≤ 1) (h0 : ∀ d ∈ ds, d.offset = 0)
     (pool : Option Pool) (legs : List Leg) (h : runTicker t bnbWindowDays ds = .ok (pool, legs)) :
     let sp := identifyTbl bnbWindowDays (ds.map ofDay)
     sp.2.1 = poolQ' pool ∧ sp.2.2 = poolC' pool ∧
     legs.map legView = sp.1.flatMap (fun dsp => dsp.legs.map slegView) :=
-  runTicker_eq_spec t bnbWindowDays ds hs hok hne hone pool legs h
+  runTicker_eq_spec t bnbWindowDays ds hs hok hne hone h0 pool legs h
+
+theorem daysOf_offset (t : String) (pre : List Tx) : ∀ d ∈ daysOf t pre, d.offset = 0 := by
+  intro d hd; unfold daysOf at hd; exact groupDays_offset _ d hd
+
+/-- **C01 for one security, capital events allowed**: the matcher is the statutory evaluation of the same
+    days with each purchase costed at its consideration and fees plus the offset the cost pre-pass wrote
+    on it (what those offsets are is C03's and C11's subject). Strictly increasing dates, non-negative
+    quantities, at most one SELL line per day. -/
+theorem C01_matcher_is_statute_with_events (t : String) (ds : List Day) (hs : ds.Pairwise (fun a b => a.ord < b.ord))
+    (hok : daysOk ds) (hone : ∀ d ∈ ds, d.sells.length ≤ 1)
+    (pool : Option Pool) (legs : List Leg) (h : runTicker t bnbWindowDays ds = .ok (pool, legs)) :
+    ∃ lots, prepass t [] ds = .ok lots ∧
+      (let sp := identifyTbl bnbWindowDays ((ds.map (fun d => { d with offset := offsetFor d.ord lots })).map ofDay)
+       sp.2.1 = poolQ' pool ∧ sp.2.2 = poolC' pool ∧
+       legs.map legView = sp.1.flatMap (fun dsp => dsp.legs.map slegView)) :=
+  runTicker_eq_spec_offsets t bnbWindowDays ds hs hok hone pool legs h
 
 /-- **C01 from the raw ledger**: for every validator-clean ledger with valid dates that the matcher
     accepts, and every security whose days carry no capital return / accumulation and at most one SELL
@@ -327,7 +347,7 @@ theorem C01_ledger (l : List Tx) (hw : WellFormed l) (hd : Spec.DatesOk l) (rs :
       r.legs.map legView = s.disposals.flatMap (fun dsp => dsp.legs.map slegView) := by
   intro r hr hne hone
   have hrun := C02.run_result bnbWindowDays l rs h r hr
-  have := C01_matcher_is_statute r.ticker _ (daysOf_strict l r.ticker) (wellFormed_days l hw r.ticker).1 hne hone r.pool r.legs hrun
+  have := C01_matcher_is_statute r.ticker _ (daysOf_strict l r.ticker) (wellFormed_days l hw r.ticker).1 hne hone (daysOf_offset r.ticker _) r.pool r.legs hrun
   rw [← table_eq_days r.ticker l hw hd] at this
   exact this
 
@@ -355,6 +375,77 @@ def exRaw : List Tx :=
 
 example : WellFormed exRaw ∧ noEventLines "A" exRaw ∧ oneSellPerDay "A" exRaw ∧ ¬ noEventLines "B" exRaw := by
   decide +kernel
+
+/-! ### capital events allowed -/
+section Events
+open Spec
+
+/-- a day of the table with its purchase's cost adjusted by `off` (days without a purchase are left alone) -/
+def adjCost (off : Int → Rat) (sd : SDay) : SDay :=
+  if sd.B = 0 then sd else { sd with Bcost := sd.Bcost + off sd.date.ord }
+
+theorem ofDay_setOffset (d : Day) (x : Rat) (h0 : d.offset = 0) (hpos : ∀ b, d.buy = some b → 0 < b.q) :
+    ofDay { d with offset := x } = adjCost (fun _ => x) (ofDay d) := by
+  unfold adjCost
+  cases hb : d.buy with
+  | none =>
+    have hB : (ofDay d).B = 0 := by simp [ofDay, Day.B, hb]
+    rw [if_pos hB]
+    apply SDay.ext' <;> simp [ofDay, Day.B, Day.S, hb]
+  | some b =>
+    have hq := hpos b hb
+    have hB : ¬ (ofDay d).B = 0 := by simp only [ofDay, Day.B, hb]; grind
+    rw [if_neg hB]
+    apply SDay.ext' <;> simp [ofDay, Day.B, Day.S, hb, h0] <;> grind
+
+/-- **C01 from the raw ledger, capital events allowed**: for a validator-clean ledger with valid dates that
+    the matcher accepts, every security whose SELL lines fall on different days is identified exactly as
+    the statutory evaluation identifies the day table built from the raw lines, each purchase costed at its
+    consideration and fees plus the offset the cost pre-pass left on it — legs (rule, quantity, allowable
+    cost, acquisition date, in order) and closing pool (quantity, cost). Without capital returns and
+    accumulations every offset is zero and this is `C01_ledger_raw`. -/
+theorem C01_ledger_events (l : List Tx) (hw : WellFormed l) (hd : Spec.DatesOk l) (rs : List TickerResult)
+    (h : run bnbWindowDays l = .ok rs) :
+    ∀ r ∈ rs, oneSellPerDay r.ticker l →
+      ∃ lots, prepass r.ticker [] (daysOf r.ticker (preprocess l)) = .ok lots ∧
+        (let sp := identifyTbl bnbWindowDays ((table r.ticker l).map (adjCost (fun o => offsetFor o lots)))
+         sp.2.1 = poolQ' r.pool ∧ sp.2.2 = poolC' r.pool ∧
+         r.legs.map legView = sp.1.flatMap (fun dsp => dsp.legs.map slegView)) := by
+  intro r hr hone
+  have hrun := C02.run_result bnbWindowDays l rs h r hr
+  have hdays := wellFormed_days l hw r.ticker
+  obtain ⟨lots, hp, hsp⟩ := C01_matcher_is_statute_with_events r.ticker _ (daysOf_strict l r.ticker) hdays.1
+    (oneSell_of_raw r.ticker l hone) r.pool r.legs hrun
+  refine ⟨lots, hp, ?_⟩
+  have hpos : ∀ d ∈ daysOf r.ticker (preprocess l), ∀ b, d.buy = some b → 0 < b.q := by
+    intro d hdm
+    unfold daysOf at hdm
+    have hp' := preprocess_ok l hw
+    have := groupDays_pos _ (by
+      intro x hx
+      simp only [List.mem_filter] at hx
+      have hm : x ∈ indexed (preprocess l) := hx.1
+      unfold indexed at hm
+      simp only [List.mem_map] at hm
+      obtain ⟨⟨y, j⟩, hy, rfl⟩ := hm
+      have := List.mem_zipIdx hy
+      exact hp' y (by rw [this.2.2]; exact List.getElem_mem _)) d hdm
+    exact this.2.2
+  have htab : (List.map (fun d => { d with offset := offsetFor d.ord lots }) (daysOf r.ticker (preprocess l))).map ofDay
+      = (table r.ticker l).map (adjCost (fun o => offsetFor o lots)) := by
+    rw [table_eq_days r.ticker l hw hd, List.map_map, List.map_map]
+    apply List.map_congr_left
+    intro d hdm
+    simp only [Function.comp]
+    rw [ofDay_setOffset d _ (daysOf_offset r.ticker _ d hdm) (hpos d hdm)]
+    unfold adjCost
+    have : (ofDay d).date.ord = d.ord := rfl
+    rw [this]
+  rw [htab] at hsp
+  exact hsp
+
+
+end Events
 
 /-- the order in which `process_sell` tries the rules, as the translator reads it on every run (group
     `cascade`): Same Day, then the 30-day rule, then the Section 104 pool — the order `sellStep` models -/
